@@ -64,10 +64,52 @@ func c05Collection(r *fw.Rand, layout geom.Layout, so gen.ShapeOpts, depth int) 
 func c05Model(r *fw.Rand) *model.G {
 	layout := gen.StdLayouts[r.Intn(4)]
 	so := gen.ShapeOpts{Valid: true, CoordFn: c05Finite(r), Big: r.Chance(1, 10)}
+	var g *model.G
 	if r.Chance(1, 3) {
-		return c05Collection(r, layout, so, 0)
+		g = c05Collection(r, layout, so, 0)
+	} else {
+		g = gen.Shape(r, gen.Kinds6[r.Intn(6)], layout, gen.SmallInt, so)
 	}
-	return gen.Shape(r, gen.Kinds6[r.Intn(6)], layout, gen.SmallInt, so)
+	if r.Chance(1, 4) {
+		c05ZeroSigns(r, g)
+	}
+	return g
+}
+
+// c05ZeroSigns gives a zero ordinate of a ring's closing vertex the other sign than
+// the first vertex has (0 and -0 are equal: the ring is closed; they are different
+// numbers to write and to read back), and zero ordinates elsewhere a sign at random.
+func c05ZeroSigns(r *fw.Rand, g *model.G) {
+	ring := func(seq [][]float64) {
+		if len(seq) < 2 {
+			return
+		}
+		first, last := seq[0], seq[len(seq)-1]
+		for i := range first {
+			if i < len(last) && first[i] == 0 && last[i] == 0 && r.Bool() {
+				last[i] = -first[i]
+				if !math.Signbit(last[i]) && !math.Signbit(first[i]) {
+					last[i] = math.Copysign(0, -1)
+				}
+			}
+		}
+	}
+	switch g.Kind {
+	case model.Polygon:
+		for _, s := range g.C2 {
+			ring(s)
+		}
+	case model.MultiPolygon:
+		for _, p := range g.C3 {
+			for _, s := range p {
+				ring(s)
+			}
+		}
+	case model.Collection:
+		for _, m := range g.Members {
+			c05ZeroSigns(r, m)
+		}
+	}
 }
 
 func hasEmptyMember(g *model.G) bool {
@@ -111,12 +153,27 @@ func c05Run(c *fw.Ctx, idx int) {
 	t := g.BuildFlat()
 	var text string
 	var err error
+	early := ""
 	if c.R.Chance(1, 4) {
 		// an earlier call with other options (by this or any caller of the package)
-		// must leave no trace in a later plain call
+		// must leave no trace in a later plain call - whichever plain entry point
+		// comes first afterwards
 		codecNoise(c)
+		if c.R.Bool() {
+			var e0 error
+			if c.Guard("panic", func() { early, e0 = wkt.NewEncoder().Encode(t) }) {
+				return
+			}
+			if e0 != nil {
+				early = ""
+			}
+		}
 	}
 	if c.Guard("panic", func() { text, err = wkt.Marshal(t) }) {
+		return
+	}
+	if early != "" && err == nil && early != text {
+		c.Fail("encoder-differs", "right after calls with other options NewEncoder().Encode gave %s, wkt.Marshal gives %s", clipStr(early, 300), clipStr(text, 300))
 		return
 	}
 	c.Eval(1)
@@ -278,7 +335,36 @@ func c05Run(c *fw.Ctx, idx int) {
 		}
 	}
 	c05KeptText, c05KeptWant = t3, strings.Clone(text)
+	// the kept encoder also writes closed lines that the caller builds in one
+	// coordinate buffer, refilled in place from case to case (five vertices, the
+	// last one equal to the first: always at the same addresses)
+	if r.Chance(1, 2) {
+		lay := gen.StdLayouts[r.Intn(4)]
+		st := lay.Stride()
+		buf := c05LineBuf[:5*st]
+		for i := 0; i < 4*st; i++ {
+			buf[i] = float64(r.Range(-9, 9))
+			if r.Chance(1, 3) {
+				buf[i] = float64(r.Range(-1, 1)) // few distinct values: vertices repeat between cases
+			}
+		}
+		copy(buf[4*st:], buf[:st])
+		ls := geom.NewLineStringFlat(lay, buf)
+		var a, b string
+		var e1, e2 error
+		if c.Guard("panic", func() { a, e1 = c05Kept.Encode(ls); b, e2 = wkt.Marshal(ls) }) {
+			return
+		}
+		c.Eval(2)
+		c.Count("kept_encoder_on_lines_in_a_refilled_buffer")
+		if e1 != nil || e2 != nil || a != b {
+			c.SetInput(map[string]any{"geometry": "LineString " + lay.String() + " " + fw.Fs(buf), "note": "built in a coordinate buffer that held the previous case's line"})
+			c.Fail("encoder-differs", "the kept Encoder writes %s (err=%v) for a line built in a refilled buffer; wkt.Marshal writes %s (err=%v)", a, e1, b, e2)
+		}
+	}
 }
+
+var c05LineBuf [20]float64
 
 // the text returned by the kept encoder for the previous case, and a private copy of what it said
 var c05KeptText, c05KeptWant string
